@@ -48,3 +48,9 @@ Proof.
   specialize (K _ H). simpl in K. destruct (src_rank a) as [ra|]; try discriminate. destruct (src_rank b) as [rb|]; try discriminate.
   exists ra, rb. repeat split; auto. apply Nat.ltb_lt. exact K.
 Qed.
+
+Lemma close_shortcut_ok_true : close_shortcut_ok = true.
+Proof. vm_compute. reflexivity. Qed.
+
+Lemma close_shortcut_spec : gen_close_shortcut_cond = close_shortcut_modelled.
+Proof. apply String.eqb_eq. exact close_shortcut_ok_true. Qed.
